@@ -1,5 +1,6 @@
 import LinfaSpec.Proofs.Gmm
 import LinfaSpec.Proofs.GmmReal
+import LinfaSpec.Proofs.GmmFit
 import Mathlib.Tactic.NormNum
 
 /-!
@@ -186,6 +187,107 @@ example : toMat 1 (precisionsFull 1 [[(1/2 : ℚ)]]) * (Matrix.of fun _ _ => (4 
     subst ha; subst hb
     simp [toMat, at2]
 
+
+/-! ## The loop of `fit`: failure to converge or a failing step is an error
+
+`fitOutcome tol maxIter nRuns tr` is the loop of `GmmValidParams::fit` (runs, iterations, convergence test,
+choice of the best run, final `match`) on the chain of EM states; `tr[t]` is the outcome of step `t`
+(`e_step` then `m_step` on state `t`): its lower bound, or the error it raised.  `.ok i` = `fit` returns
+chain state `i`.  All `tol`, iteration and run counts, all chains. -/
+section fitloop
+variable {α : Type} [Field α] [LinearOrder α] [IsStrictOrderedRing α]
+
+/-- **a returned model comes from a converged run, reached without any failed step**: if `fit` returns
+state `i`, then `i ≥ 2`, the two steps that produced it are consecutive steps (of one run) whose lower
+bounds differ by less than the tolerance, every step up to `i` succeeded, and `i` is within the budget
+`n_runs · max_n_iterations`.  (State `i ≥ 1` is the output of an M-step, so the M-step theorems above
+apply to it.) -/
+theorem fit_ok_converged (tol : α) (maxIter nRuns : Nat) (tr : List (Except String α)) (i : Nat)
+    (h : fitOutcome tol maxIter nRuns tr = .ok i) :
+    2 ≤ i ∧ i ≤ nRuns * maxIter ∧
+    (∃ p v, tr[i - 2]? = some (.ok p) ∧ tr[i - 1]? = some (.ok v) ∧ |v - p| < tol) ∧
+    ∀ t, t < i → ∃ v, tr[t]? = some (.ok v) := by
+  unfold fitOutcome at h
+  cases hr : fitRuns tol maxIter tr nRuns 0 ⟨none, none, none⟩ with
+  | error e => rw [hr] at h; simp at h
+  | ok res =>
+    obtain ⟨b, posEnd⟩ := res
+    rw [hr] at h
+    simp only at h
+    have hinv0 : BestInv tol tr 0 (⟨none, none, none⟩ : Best α) := by
+      refine ⟨?_, ?_, ?_⟩
+      · intro it hit; cases hit
+      · intro i hi; cases hi
+      · intro i it hi; cases hi
+    obtain ⟨_, h2, h3, g1, g2, g3⟩ :=
+      fitRuns_ok tol maxIter tr nRuns 0 _ b posEnd (fun t _ ht => by omega) hinv0 hr
+    cases hbi : b.bestIter with
+    | none => rw [hbi] at h; simp at h
+    | some it =>
+      cases hbb : b.best with
+      | none => rw [hbi, hbb] at h; simp at h
+      | some j =>
+        rw [hbi, hbb] at h
+        simp only [Except.ok.injEq] at h
+        subst h
+        obtain ⟨c1, p, v, c2, c3, c4⟩ := g3 j it hbb hbi
+        have hj := g2 j hbb
+        exact ⟨c1, by omega, ⟨p, v, c2, c3, c4⟩, fun t ht => h3 t (Nat.zero_le _) (by omega)⟩
+
+/-- **failure to converge is an error**: on a chain whose consecutive lower bounds never come within the
+tolerance, `fit` returns no model, whatever the numbers of runs and iterations -/
+theorem never_converged_is_error (tol : α) (maxIter nRuns : Nat) (tr : List (Except String α))
+    (hfar : ∀ t p v, tr[t]? = some (.ok p) → tr[t + 1]? = some (.ok v) → tol ≤ |v - p|) :
+    ∀ i, fitOutcome tol maxIter nRuns tr ≠ .ok i := by
+  intro i h
+  obtain ⟨h2, _, ⟨p, v, c2, c3, c4⟩, _⟩ := fit_ok_converged tol maxIter nRuns tr i h
+  have : i - 2 + 1 = i - 1 := by omega
+  have := hfar (i - 2) p v c2 (by rw [this]; exact c3)
+  exact absurd c4 (not_lt.mpr this)
+
+/-- **a failing step is an error** (emptied component, failed Cholesky): a run that meets a failed step
+ends with that error … -/
+theorem step_error_ends_run (tol : α) (tr : List (Except String α)) (fuel iter pos : Nat)
+    (prev : Option α) (e : String) (h : tr[pos]? = some (.error e)) :
+    runLoop tol tr (fuel + 1) iter pos prev = .error e :=
+  runLoop_step_error tol tr fuel iter pos prev e h
+
+/-- … and the error of a run is the result of `fit` (no later run, no earlier accepted run hides it) -/
+theorem run_error_is_fit_error (tol : α) (maxIter : Nat) (tr : List (Except String α)) (runs pos : Nat)
+    (b : Best α) (e : String) (h : runLoop tol tr maxIter 0 pos none = .error e) :
+    fitRuns tol maxIter tr (runs + 1) pos b = .error e :=
+  fitRuns_run_error tol maxIter tr runs pos b e h
+
+/-- in particular: the very first step failing makes `fit` fail with that error -/
+theorem first_step_error_is_fit_error (tol : α) (maxIter nRuns : Nat) (tr : List (Except String α))
+    (e : String) (h : tr[0]? = some (.error e)) :
+    fitOutcome tol (maxIter + 1) (nRuns + 1) tr = .error e := by
+  unfold fitOutcome
+  rw [fitRuns_run_error tol (maxIter + 1) tr nRuns 0 _ e (runLoop_step_error tol tr maxIter 0 0 none e h)]
+
+end fitloop
+
+/-- non-vacuity: a chain that converges at its third step (|21/20 − 1| < 1/10): state 3 is returned -/
+example : fitOutcome (1/10 : ℚ) 5 1 [.ok 0, .ok 1, .ok (21/20)] = .ok 3 := by
+  norm_num [fitOutcome, fitRuns, runLoop, convTest, lbGreater, absS]
+/-- two runs of two iterations: the first does not converge, the second (continuing the chain) does -/
+example : fitOutcome (1/10 : ℚ) 2 2 [.ok 0, .ok 1, .ok (21/20), .ok (21/20)] = .ok 4 := by
+  norm_num [fitOutcome, fitRuns, runLoop, convTest, lbGreater, absS]
+/-- the budget runs out before the bounds settle: `NotConverged` -/
+example : fitOutcome (1/10 : ℚ) 3 1 [.ok 0, .ok 1, .ok 2] = .error "NotConverged" := by
+  norm_num [fitOutcome, fitRuns, runLoop, convTest, lbGreater, absS]
+/-- the hypothesis of `never_converged_is_error` is satisfiable -/
+example : ∀ t p v, ([.ok 0, .ok 1, .ok 2] : List (Except String ℚ))[t]? = some (.ok p) →
+    ([.ok 0, .ok 1, .ok 2] : List (Except String ℚ))[t + 1]? = some (.ok v) → (1/10 : ℚ) ≤ |v - p| := by
+  intro t p v h1 h2
+  match t with
+  | 0 => simp at h1 h2; subst h1; subst h2; norm_num
+  | 1 => simp at h1 h2; subst h1; subst h2; norm_num
+  | n + 2 => simp at h2
+/-- an emptied component in the second step: the error is the result -/
+example : fitOutcome (1/10 : ℚ) 5 2 [.ok 0, .error "EmptyCluster"] = .error "EmptyCluster" := by
+  norm_num [fitOutcome, fitRuns, runLoop, convTest, lbGreater, absS]
+
 /-! ## Probabilities (over ℝ) -/
 
 theorem weightedLogProb_ne_nil (ln2pi : ℝ) (d : Nat) (w : List ℝ) (mu : List (List ℝ))
@@ -240,6 +342,81 @@ theorem predict_is_argmax (ln2pi : ℝ) (d : Nat) (w : List ℝ) (mu : List (Lis
   have h1 := (proba_nonneg ln2pi d w mu pcs x).1
   rw [h] at h1
   exact hk (List.length_eq_zero_iff.mp h1.symm)
+
+
+/-! ## One EM iteration keeps the mixture valid
+
+`emStep` = `e_step` on the current mixture followed by `m_step` on `exp(log_resp)`: whatever the current
+parameters are (any weights list with at least one component, any means, any `precisions_chol`), the
+parameters after the iteration are a valid mixture or the iteration is an error.  With `fit_ok_converged`
+(a returned model is chain state `i ≥ 2`, i.e. the result of such an iteration) this is the statement for
+every model `fit` returns, for all data, configurations and iteration counts. -/
+
+theorem range_map_getD {α : Type} [OfNat α 0] (l : List α) :
+    (List.range l.length).map (fun j => l.getD j 0) = l := by
+  apply List.ext_getElem
+  · simp
+  · intro i h1 h2
+    simp at h1
+    simp [List.getD_eq_getElem?_getD, h1]
+
+theorem eResp_row (ln2pi : ℝ) (d : Nat) (w : List ℝ) (mu : List (List ℝ))
+    (pcs : List (List (List ℝ))) (x : List (List ℝ)) (i : Nat) (hi : i < x.length) :
+    (eResp ln2pi d w mu pcs x).getD i [] = predictProba ln2pi d w mu pcs (x[i]) := by
+  simp [eResp, List.getD_eq_getElem?_getD, hi]
+
+/-- the responsibilities of an E-step: every row sums to one … -/
+theorem eResp_row_sum (ln2pi : ℝ) (d : Nat) (w : List ℝ) (mu : List (List ℝ))
+    (pcs : List (List (List ℝ))) (x : List (List ℝ)) (hk : w ≠ []) :
+    ∀ i, i < x.length → sumRange w.length (fun j => at2 (eResp ln2pi d w mu pcs x) i j) = 1 := by
+  intro i hi
+  have hlen := (proba_nonneg ln2pi d w mu pcs (x[i])).1
+  unfold sumRange at2
+  rw [eResp_row ln2pi d w mu pcs x i hi, ← hlen, range_map_getD]
+  exact proba_sum_one ln2pi d w mu pcs (x[i]) hk
+
+/-- … and every entry is non-negative -/
+theorem eResp_nonneg (ln2pi : ℝ) (d : Nat) (w : List ℝ) (mu : List (List ℝ))
+    (pcs : List (List (List ℝ))) (x : List (List ℝ)) :
+    ∀ i j, i < x.length → j < w.length → 0 ≤ at2 (eResp ln2pi d w mu pcs x) i j := by
+  intro i j hi hj
+  obtain ⟨hlen, hpos⟩ := proba_nonneg ln2pi d w mu pcs (x[i])
+  unfold at2
+  rw [eResp_row ln2pi d w mu pcs x i hi]
+  have hj' : j < (predictProba ln2pi d w mu pcs (x[i])).length := by rw [hlen]; exact hj
+  rw [List.getD_eq_getElem?_getD, List.getElem?_eq_getElem hj']
+  exact le_of_lt (hpos _ (List.getElem_mem hj'))
+
+/-- **the valid-mixture invariant is inductive over EM iterations**: after `e_step; m_step` from ANY
+mixture, the weights are positive and sum to one, there is one mean per component inside the bounding
+box, and every covariance is symmetric with `vᵀΣv ≥ reg·|v|²` and diagonal `≥ reg` -/
+theorem em_step_valid (thr reg ln2pi : ℝ) (d : Nat) (w : List ℝ) (mu : List (List ℝ))
+    (pcs : List (List (List ℝ))) (x : List (List ℝ)) (p : Params ℝ)
+    (hk : w ≠ []) (hn : 0 < x.length) (hthr : 0 < thr)
+    (h : emStep thr reg ln2pi d w mu pcs x = .ok p) :
+    sumS p.weights = 1 ∧ (∀ v ∈ p.weights, 0 < v) ∧ p.means.length = w.length ∧
+    (∀ j c, j < w.length → c < d → ∀ lo hi : ℝ,
+      (∀ i, i < x.length → lo ≤ at2 x i c ∧ at2 x i c ≤ hi) →
+        lo ≤ at2 p.means j c ∧ at2 p.means j c ≤ hi) ∧
+    (∀ j a b, j < w.length → a < d → b < d →
+      at2 (p.covs.getD j []) a b = at2 (p.covs.getD j []) b a) ∧
+    (∀ j, j < w.length → ∀ v : Nat → ℝ, reg * sumRange d (fun a => v a ^ 2) ≤
+      sumRange d (fun a => sumRange d fun b => v a * at2 (p.covs.getD j []) a b * v b)) ∧
+    (∀ j a, j < w.length → a < d → reg ≤ at2 (p.covs.getD j []) a a) := by
+  unfold emStep at h
+  have hrow := eResp_row_sum ln2pi d w mu pcs x hk
+  have hnn := eResp_nonneg ln2pi d w mu pcs x
+  obtain ⟨hm1, hm2⟩ := means_in_bbox thr reg x.length d w.length x _ p hthr hnn h
+  exact ⟨weights_sum_one thr reg x.length d w.length x _ p hn hrow h,
+    weights_pos thr reg x.length d w.length x _ p hthr hn h, hm1, hm2,
+    cov_symm thr reg x.length d w.length x _ p h,
+    cov_pd thr reg x.length d w.length x _ p hthr hnn h,
+    cov_diag_ge_reg thr reg x.length d w.length x _ p hthr hnn h⟩
+
+/-- non-vacuity of `em_step_valid`'s hypotheses other than the guard: rows of an E-step on two
+observations under a two-component mixture sum to one (so an `emStep` has well-formed input) -/
+example : ∀ i, i < 2 → sumRange 2 (fun j => at2 (eResp (1 : ℝ) 1 [2/3, 1/3] [[7], [-14]] [[[4]], [[4]]] [[0], [3]]) i j) = 1 :=
+  eResp_row_sum 1 1 [2/3, 1/3] [[7], [-14]] [[[4]], [[4]]] [[0], [3]] (by simp)
 
 /-- `argmax` in general: valid index, entry maximal (any linear order, any non-empty row) -/
 theorem argmaxFirst_is_max {α : Type} [LinearOrder α] [OfNat α 0] (l : List α) (hl : l ≠ []) :
